@@ -161,7 +161,8 @@ def run_unit(u):
                             except BudgetExceeded:
                                 glr_out = None
                         if det and glr_out is not None:
-                            glr_model.append((case, text, glr_alt_set(num, f) if glr_out[0] == "forest" else "syntax"))
+                            glr_model.append((case, text, glr_alt_set(num, f) if glr_out[0] == "forest" else "syntax",
+                                              enc_tree(num, f[0]) if glr_out[0] == "forest" else None))
                         checks.append((case, impl, qlr, qs, qd, det, glr_out))
                     # the GLR driver model on GLRParser's own table (hypotheses of
                     # C04_glr_model_trees_are_the_parser_tree: wf, skipidem; lrvalid/detok above)
@@ -169,12 +170,21 @@ def run_unit(u):
                     if glr_model:
                         b.add("table", enc_table(num, glr[tname].table))
                         qwfg = b.add("wf")
-                        for case, text, impl_glr in glr_model:
+                        for case, text, impl_glr, etree in glr_model:
                             b.add("input", enc_input(num, glr[tname], text))
-                            gq.append((case, impl_glr, b.add("glr", 4000, 1, 0), b.add("skipidem")))
+                            qg_ = b.add("glr", 4000, 1, 0)
+                            # GLRParser's tree is looked up in the packed forest of the model's run
+                            # (hypothesis `TreeOf` of C04_glr_model_trees_are_the_parser_tree)
+                            qt_ = b.add("glrtree", etree) if etree is not None else None
+                            gq.append((case, impl_glr, qg_, b.add("skipidem"), qt_))
                     out = b.run()
-                    for case, impl_glr, qg, qi in gq:
+                    for case, impl_glr, qg, qi, qt_ in gq:
                         mg = parse_glr_reply(out[qg])
+                        if qt_ is not None and out[qt_] == "glrtree 1":
+                            bump(st, "glr_trees_found_in_model_forest")
+                        elif qt_ is not None and out[qt_] == "glrtree 0":
+                            res["disagreements"].append({"case": case, "what": "GLRParser's tree is not in the packed "
+                                                         "forest of the GLR driver model", "impl": "tree", "model": "not found"})
                         if isinstance(mg, str) and mg in ("ordersens", "fuel"):
                             bump(st, "glr_model_" + mg)
                         else:
